@@ -1,4 +1,4 @@
-//go:build opcover
+//go:build opcover && !optrace
 
 package main
 
